@@ -3561,7 +3561,13 @@ void SetFlag(Boolean* Flag, char const* Name, Boolean Wert) {
 
     *Flag = Wert;
     StrCompMkTemp(&TmpComp, (char*)Name, 0);
+
+    /* the predefined symbol is the global one, also when the statement
+       stands in a macro or loop body (as for SET/EQU): */
+
+    PushLocHandle(-1);
     EnterIntSymbol(&TmpComp, *Flag ? 1 : 0, SegNone, True);
+    PopLocHandle();
 }
 
 void AddDefSymbol(char* Name, TempResult* Value) {
